@@ -17,7 +17,9 @@ SPEC = {
                    "octal/decimal/underscores, other goroutines), 5 outcome-changing mutations (sentinel missing/odd/late, "
                    "pairing shifted, invalid pc spellings incl. > 2^64, earlier ' pc=', sigpanic placement, frames "
                    "without pc, header and terminator variants, cut text, changed pcs, > 16 frames), 2 relocation pairs "
-                   "(sentinel and pcs shifted, incl. wrap-around), 3 synthetic reports, 2 random texts. distinct = distinct "
+                   "(sentinel and pcs shifted, incl. wrap-around), 3 synthetic reports, 2 random texts (one in 40 cases each "
+                   "instead runs strconv.ParseUint(s,0,64) resp. fmt.Sscanf(line,\"sentinel %x\") directly on generated "
+                   "numerals against the model's parse_uint0 / scan_sentinel). distinct = distinct "
                    "case lines; every case compares status, pc list and name with the model and evaluates the oracles "
                    "(shape, 16-frame cap, length, equal projection -> equal name, equal pcs -> equal name, relocation "
                    "invariance, genuine frames) on the implementation's output"),
